@@ -41,7 +41,7 @@ CFG = dict(
     prop="C01", level="proof", harness="c01",
     props_files=["theories/Props/C01.v"], corr_file="theories/Corr/C01.v", corr_module="Corr.C01",
     extra_targets=["theories/Lexer/Tables.vo"],
-    groups={"lex": False},
+    groups={"lex": False, "lextpl": False},
     pre=_pre, shard=40,
     design_ref="DESIGN.md 6.1, notes/C01.md",
     technique="Coq proof about a Gallina model of Lexer::lex (string input) with the regex engines as oracles under monitored contracts "
@@ -57,12 +57,23 @@ CFG = dict(
                "query the real lexer makes is logged by a cfg(sqruff_verif) hook and answered by the real pattern object); regex engines and "
                "native cursor functions are oracles whose contracts are monitored on every recorded answer and, for progress, decided "
                "statically with regex_syntax where the pattern is in its language; only StringOrTemplate::String (one literal slice) is "
-               "modelled -- templated input is C15; byte offsets only (line/column of the position marker are not modelled).",
+               "modelled and proved -- the templated entry Lexer::lex(Template(file)) is observed directly on every run and tied (group lextpl) "
+               "to the composition of this model of the lexing loop with C15's model of iter_segments, whose theorems are C15's; byte offsets only (line/column of the position marker are not modelled).",
     rule="13 dialects x (regression strings incl. 'SELECT @x, b FROM t', last-resort probes, own corpus, cross-dialect corpus, rule "
          "fixture snippets, token-level mutations, junk stream with @ $ \\ lone quotes non-ASCII CR/CRLF control chars, junk spliced into SQL, "
          "2-/3-/4-byte characters inside every token shape [32 comment / quote / dollar / literal / identifier styles, terminated and "
          "unterminated, six layouts, enumerated + random mixtures], large inputs [44 shapes: one token or one unterminated token of 450 kB "
-         "and 1.3 MB in every quoting / comment / literal style, many-token inputs of 16 and 48 kB; observed directly only]); "
+         "and 1.3 MB in every quoting / comment / literal style, many-token inputs of 16 and 48 kB; observed directly only], "
+         "LF / CR LF / lone CR / blank / text mixtures [all strings of up to 4 letters] inside block comments and hints and [up to 2] inside the other 28 "
+         "token shapes, corpus files rewritten with CR LF, doubled and mixed line endings -- all given to Lexer::lex as the raw string); "
+         "13 dialects x templated files given to the lexer's other entry Lexer::lex(Template(file)) [1-3 placeholders inside one run of blanks with "
+         "every separator combination and empty / blank / other values, between text, at the start and at the end of the file; placeholders with "
+         "values shorter, longer, of equal length, empty, multi-token, multi-line, non-ASCII, first / last / alone; random fragment sequences; "
+         "corpus files templatised in ten parameter styles -- made by the real PlaceholderTemplater::process and by TemplatedFile::new; "
+         "observed directly in both coordinate systems [and a per-class budget of files <= 600 bytes replayed on the composed Gallina model]: texts concatenate to the templated text, templated slices tile it, raw = text at "
+         "the slice, source slices inside the source, a token inside a literal slice sits at the translated place and the source shows the same "
+         "text, consecutive source slices contiguous up to source text that renders to nothing or share one placeholder, one end-of-file marker at "
+         "the end of the templated text and at the end of the source (up to trailing source that renders to nothing)]; "
          "each lexed by the real Lexer::lex on a helper thread under a CPU-time watchdog (a call that does not return is a failing input): "
          "property observed directly (returns, concat, tiling, raw=slice, src=tpl, one EOF at len, no panic/Err) and, "
          "for a per-class budget of inputs <= 600 bytes, the Gallina model run on the recorded oracle answers must produce the same token list "
@@ -71,8 +82,11 @@ CFG = dict(
                  "(monitored on every recorded answer; blocking)",
                  "pattern answers depend only on the &str they are given (the model's oracles additionally receive the absolute offset)",
                  "regex/cursor match boundaries are UTF-8 character boundaries (the model slices bytes)",
-                 "only untemplated input (StringOrTemplate::String) is modelled",
+                 "the theorems are about untemplated input (StringOrTemplate::String); Lexer::lex(Template(..)) is covered by direct observation of the "
+                 "property in templated and source coordinates and by correspondence with the composed model (lexing loop of this area, "
+                 "then Templ.Model.lex_segments of C15 on the slice list); a token is taken to be splittable iff its kind is Whitespace "
+                 "(the code tests the matcher name 'whitespace')",
                  "a lexer call is taken not to return when its thread has used 10 s + 15 ms/kB^2 of CPU time (15 s + 40 s/MB for the "
                  "generated one-token inputs of 100 kB and more); the watchdog is self-tested on every run (blocking monitor)"],
-    show_fn={"lex": "model"},
+    show_fn={"lex": "model", "lextpl": "model_lextpl"},
 )
